@@ -22,7 +22,7 @@ TIMEOUT = {'quick': 1500, 'thorough': 3 * 3600}
 RULE = ('A case is one serialised triple (from a random call sequence or a module) replayed phase by phase, or one malformed variant of a phase file. '
         'distinct_nontrivial = distinct triples whose files contain an ESubst/SSubst, MetaVar with constraints, Quantifier, Generalization or Publish.')
 ASSUMPTIONS = ['the tracker does not record published claims itself: before the proof phase the fresh interpreter is given the claims it was shown in the claim phase, in declared order']
-FLOORS = {'quick': {'roundtrips': 1500, 'call_sequence_states_compared': 5000, 'phase_streams:gamma': 500, 'phase_streams:claim': 500, 'phase_streams:proof': 500, 'truncations': 2000, 'unknown_opcode_insertions': 2000,
+FLOORS = {'quick': {'roundtrips': 1500, 'modules_with_repeated_constraint_entries': 60, 'call_sequence_states_compared': 5000, 'phase_streams:gamma': 500, 'phase_streams:claim': 500, 'phase_streams:proof': 500, 'truncations': 2000, 'unknown_opcode_insertions': 2000,
                     **{f'roundtrip_op:{n}': 100 for n in ('EVar', 'SVar', 'Symbol', 'Implies', 'App', 'Exists', 'Mu', 'MetaVar', 'CleanMetaVar', 'ESubst', 'SSubst', 'Prop1', 'Prop2', 'Prop3',
                                                           'Quantifier', 'ModusPonens', 'Generalization', 'Instantiate', 'Pop', 'Save', 'Load', 'Publish')}}}
 FLOORS['thorough'] = dict(FLOORS['quick'], roundtrips=30000)
@@ -228,7 +228,11 @@ def shard(ctx):
     todo += [(f'gen{i}', None) for i in range(ctx.scale(960, 8000))]
     for name, f in todo:
         try:
-            b = mw.Built(f(), {'shipped'}, [name]) if f else mw.random_module(rng)
+            if f is None and name.endswith('7'):
+                b = mw.repeated_constraint_module(rng)      # every tenth: constraint lists that name a variable twice
+                ctx.count('modules_with_repeated_constraint_entries')
+            else:
+                b = mw.Built(f(), {'shipped'}, [name]) if f else mw.random_module(rng)
             for opt in (False, True):
                 triple = mw.serialize(b.mod, sc, 'm', opt)
                 fresh = roundtrip(ctx, triple, b.mod.get_claims(), f'module:{name}:opt={opt}')
